@@ -23,5 +23,6 @@ std::vector<std::string> take_log();             // fetch and clear the log
 void reset_scenario();                           // new scenario: ordinals restart at 1
 std::size_t open_client_fds();                   // client descriptors (AF_INET/AF_INET6 sockets) currently open
 void set_faults(const fault_plan & f);
+void set_capture_raw(bool on);                  // log the first bytes of every send()/sendmsg() of the client
 
 } // namespace vh
